@@ -18,6 +18,7 @@ import segtree
 import c01complete
 import segmodel
 import dispatch
+import nitfasm
 
 sys.path.insert(0, os.path.join(VERIF, 'translate'))
 
@@ -627,11 +628,13 @@ def run(tier):
     if gen_info['unsupported']:
         gen_info['note'] = 'translator could not express: ' + json.dumps(gen_info['unsupported'])
     gen_info['dispatch'] = dispatch.regen()
-    broken = chk.prove(['SarpyModel.Props.C01', 'SarpyModel.Props.C01Nd', 'SarpyModel.Props.C01Complete', segmodel.SEG_MODULE, 'SarpyModel.Drivers']
+    nitfasm.regenerate(chk)          # Gen/NitfOrient.lean: the NITF reader's orientation tables, from the current source
+    broken = chk.prove(['SarpyModel.Props.C01', 'SarpyModel.Props.C01Nd', 'SarpyModel.Props.C01Complete', segmodel.SEG_MODULE, nitfasm.NITF_MODULE, 'SarpyModel.Drivers']
                        + dispatch.targets_reads(), 'SarpyModel.Props.C01Complete', 'Sarpy.Props.C01', REQUIRED, gen_info,
                        extra=dispatch.extra_reads())
     if not broken:
         segmodel.obligations_reads(chk, broken)      # Props/C01Seg.lean: segment trees as index maps, read = select(full)
+        nitfasm.obligations(chk, broken)             # Props/C01Nitf.lean: how the NITF reader builds those trees from subheader fields
 
     # ---- correspondence: kernels three-way (python / Gen / Spec) and numpy-spec validation
     disagreements = []
@@ -648,6 +651,7 @@ def run(tier):
         ccs = c01complete.supported_oracle_cases(rng, tier)
         ccq = c01complete.enqueue(drv, ccs)
         seg_plan = segmodel.plan_reads(drv, rng, tier)
+        nitf_plan = nitfasm.plan(drv, rng, tier)
         ans = drv.run()
     except Infra as e:
         drv_ok = False
@@ -758,6 +762,11 @@ def run(tier):
                 subs = ([['tuple'] + [list(x) for x in dsg['sub']]] if dsg.get('sub') else [None]) + \
                     [rand_subscript(rng, shape) for _ in range(20)]
                 check_tree(dsg['tree'], subs, tmpdir, fails, stats)
+        nitf_dis, nitf_fails, nitf_stats = nitfasm.check(nitf_plan if drv_ok else nitfasm.plan(None, rng, tier), ans, tmpdir)
+        disagreements += nitf_dis
+        fails += nitf_fails
+        evaluations += nitf_stats.get('reads', 0)
+        chk.coverage['nitf_assembly'] = nitf_stats
         if tier == 'thorough':
             exhaustive_small(fails, stats, tmpdir)
     finally:
@@ -812,7 +821,7 @@ def run(tier):
         'reader dispatch layer: Spec/Dispatch.lean is tied to base.py by the translator (Gen/Dispatch.lean regenerated from the Python text, bridge '
         'theorems in Bridge/Dispatch.lean) and by the observed hand-over to recording data segments; list subscripts, numpy integers, bool-as-int and '
         'readers that override __call__ (CPHD / CRSD string indices) are outside the model; exception classes are compared as refused / served only',
-    ]
+    ] + nitfasm.ASSUMPTIONS
 
     # ---- decide
     all_fail = oracle_fail + fails
@@ -875,6 +884,8 @@ def replay(path):
         return 1 if m else 0
     if case['kind'] in ('dispatch', 'dispatch-write'):
         return dispatch.replay_case(case)
+    if case['kind'] == 'nitf':
+        return nitfasm.replay_case(case)
     if case['kind'] == 'kernel':
         m = kernel_oracle(tuple(tuple(x) if isinstance(x, list) else x for x in case['case']))
         print('kernel oracle:', m)
